@@ -32,6 +32,8 @@ M = "bits.__main__."
 
 # ----------------------------------------------------------------------------- E10: argparse model
 class ArgDecl:
+    const_eval = None  # set by ParserModel: evaluates an expression of the CLI module that does not depend on anything but constants
+
     def __init__(self, parser, flags, kw, node):
         self.parser, self.flags, self.kw, self.node = parser, flags, kw, node
         dest = kw.get("dest")
@@ -48,6 +50,10 @@ class ArgDecl:
         a = kw.get("action")
         self.action = ast.unparse(a) if a is not None else None
         d = kw.get("default")
+        if d is not None and not isinstance(d, ast.Constant) and ArgDecl.const_eval is not None:
+            v_ = ArgDecl.const_eval(d)  # a default spelled through a module-level constant / an enum member's value
+            if v_ is None or (isinstance(v_, (str, int, float, bool)) and not isinstance(v_, T)):
+                d = ast.copy_location(ast.Constant(v_ if not isinstance(v_, str) else str(v_)), d)
         self.default = d.value if isinstance(d, ast.Constant) else (ast.unparse(d) if d is not None else None)
         self.has_default = d is not None
 
@@ -106,7 +112,16 @@ class ParserModel:
         self.helpers = {f: self.mod.functions[f].node for f in ("add_common_arguments", "add_input_arguments", "add_output_arguments") if f in self.mod.functions}
         self.unmodelled = []
 
+    def _const_eval(self, node):
+        from ..evalr import Frame, Summary
+        try:
+            v = self.ev.expr(node, Frame(self.ev, self.mod.name, None, Summary(None), 0))
+        except Exception:
+            return NotImplemented
+        return v if not isinstance(v, T) else NotImplemented
+
     def run(self):
+        ArgDecl.const_eval = self._const_eval if self.ev is not None else None
         fn = self.mod.functions["setup_parser"].node
         for st in fn.body:
             self.stmt(st)
